@@ -143,3 +143,49 @@ CONTRACTS[ST + 'identity_map'] = dict(
              'forall(i, 0, 2 * N, result.ps[i] == 0)'],
     modifies=[], returns=CMAP,
 )
+
+# ------------------------------------------------------------------ C05 / C06 / C14 / C17: measurement glue
+_inv_self = 'inv_state(self.gs, self.ps, self.r, cols(self.gs) // 2)'
+CONTRACTS[ST + 'StabilizerState.measure#list'] = dict(
+    params=[('self', STATE), ('obs', dict(PLIST, exact=True))],
+    requires=['cols(obs.gs) % 2 == 0', 'cols(obs.gs) == cols(self.gs)', _inv_self, 'bits2(obs.gs)', 'len(obs.ps) == rows(obs.gs)', 'herms1(obs.ps)'],
+    # the state object keeps its arrays (updated in place), carries the rank returned by the kernel, and stays valid
+    ensures=[_inv_self, 'self.r <= old(self.r)', 'same_loc(self.gs, old(self.gs))', 'same_loc(self.ps, old(self.ps))',
+             'len(result[0]) == rows(obs.gs)', 'forall(k, 0, rows(obs.gs), result[0][k] == 0 or result[0][k] == 1)'],
+    modifies=['self.gs', 'self.ps'], modifies_scalar=['self.r'], returns=('int1 fresh', 'real'),
+)
+CONTRACTS[ST + 'StabilizerState.postselect'] = dict(
+    params=[('self', STATE), ('paulistring', dict(PAULI, exact=False)), ('postselect_res', 'int')],
+    requires=['cols(self.gs) % 2 == 0', 'inv_state(self.gs, self.ps, 0, cols(self.gs) // 2)', '0 <= self.r', 'len(paulistring.g) == cols(self.gs)',
+              'bits1(paulistring.g)', 'paulistring.p == 0 or paulistring.p == 2', 'postselect_res == 0 or postselect_res == 1'],
+    raises={'ValueError': 'self.r != 0'},
+    ensures=['inv_state(self.gs, self.ps, 0, cols(self.gs) // 2)', 'self.r == 0',
+             # the requested eigenvalue (-1)^res of the SIGNED operator i^p sigma[g]: the kernel is asked for the sign p + 2 res
+             'implies(no_anti(old(self.gs), paulistring.g, cols(self.gs) // 2, cols(self.gs) // 2), '
+             'forall(i, 0, rows(self.gs), same(self.gs[i], old(self.gs)[i]) and self.ps[i] == old(self.ps)[i]) and '
+             'result == (1 if OrdP(DestabSel(old(self.gs), paulistring.g, 0, cols(self.gs) // 2), old(self.gs), old(self.ps), cols(self.gs) // 2, cols(self.gs) // 2) '
+             '== (paulistring.p + 2 * postselect_res) % 4 else 0))',
+             'implies(not no_anti(old(self.gs), paulistring.g, cols(self.gs) // 2, cols(self.gs) // 2), 2 * result == 1 and '
+             'exists(pp, 0, cols(self.gs) // 2, same(self.gs[pp], paulistring.g) and self.ps[pp] == (paulistring.p + 2 * postselect_res) % 4))'],
+    modifies=['self.gs', 'self.ps'], returns='real',
+)
+
+CI = 'pyclifford/circuit.py::'
+MLAYER = {'cls': 'MeasureLayer', 'fields': {'gs': 'int2', 'ps': 'int1', 'N': 'int', 'result': 'none', 'log2prob': 'none'}}
+CONTRACTS[CI + 'MeasureLayer.forward'] = dict(
+    params=[('self', MLAYER), ('obj', STATE)],
+    requires=['cols(self.gs) % 2 == 0', 'cols(self.gs) == cols(obj.gs)', 'inv_state(obj.gs, obj.ps, obj.r, cols(obj.gs) // 2)',
+              'bits2(self.gs)', 'len(self.ps) == rows(self.gs)', 'herms1(self.ps)'],
+    ensures=['inv_state(obj.gs, obj.ps, obj.r, cols(obj.gs) // 2)', 'obj.r <= old(obj.r)',
+             'same_loc(obj.gs, old(obj.gs))', 'same_loc(obj.ps, old(obj.ps))', 'same_loc(result, obj)',
+             'len(self.result) == rows(self.gs)', 'forall(k, 0, rows(self.gs), self.result[k] == 1 or self.result[k] == -1)'],
+    modifies=['obj.gs', 'obj.ps', 'self.result', 'self.log2prob'], modifies_scalar=['obj.r'], returns='=obj',
+)
+CONTRACTS[ST + 'StabilizerState.expect#state'] = dict(
+    params=[('self', STATE), ('obs', dict(STATE, exact=True))],
+    requires=['cols(self.gs) % 2 == 0', 'inv_state(self.gs, self.ps, 0, cols(self.gs) // 2)', 'self.r == 0',
+              'inv_state(obs.gs, obs.ps, obs.r, cols(self.gs) // 2)'],
+    # a query: receiver and argument unchanged (the in-place kernel must be given copies)
+    ensures=[],
+    modifies=[], returns='real',
+)
